@@ -10,6 +10,8 @@ A component world implements the explorer's world protocol (mc/explorer.py) plus
 Job format: {'kind': 'comp', 'name', 'world': <registered name>, 'params': {...},
              'caps': {...explore caps...}, 'e2': n}
 '''
+import random
+
 from . import Violation, HarnessError
 from . import runner, canon
 from .explorer import explore, _Quiet
@@ -29,7 +31,7 @@ class CompWorld:
     '''Base class.  Subclasses define menu/apply_op/done/final and keep everything that
     can influence the future (the real component, the reference model, counters) in
     attributes that are picklable and canonicalisable.'''
-    _canon_skip = ('facts', 'budget', 'params', 'last_tie_size', 'nops')
+    _canon_skip = ('facts', 'budget', 'params', 'last_tie_size', 'nops', 'wcount')
 
     def __init__(self, params):
         self.params = params
@@ -55,10 +57,26 @@ class CompWorld:
     def final(self):
         pass
 
+    # The tie-break weights are the library's only use of the random module.  Which event of a tie group is DISPATCHED is
+    # chosen by the explorer; the POSITION of tied events inside the queue (irrelevant to a correct library) is owned too:
+    # weights come from a counter kept in the world, increasing ('inc': later events sort after earlier ties) or decreasing
+    # ('dec'), so the same choice list always produces the same run.  The counter is not part of the digest.
+    wcount = 0
+
+    def _next_weight(self):
+        self.wcount += 1
+        w = self.wcount * 1e-9
+        return w if self.params.get('weights', 'inc') == 'inc' else 1.0 - w
+
     def apply(self, label):
         self.facts = []
         self.nops += 1
-        self.apply_op(tuple(label))
+        saved = random.random
+        random.random = self._next_weight
+        try:
+            self.apply_op(tuple(label))
+        finally:
+            random.random = saved
 
     @classmethod
     def replay(cls, params, path):
